@@ -1,10 +1,12 @@
 (* Extract.v — extraction of the executable model to OCaml.
    Directives: only those of ExtrOcamlBasic (bool, option, unit, prod, list,
    sumbool, sumor -> native OCaml types).  positive/N/Z/nat stay Coq inductives. *)
-From PauLie Require Import Pauli Matrix Sym ClosureN.
+From PauLie Require Import Pauli Matrix Sym ClosureN LieInv Star.
 Require Extraction ExtrOcamlBasic.
 Extraction Language OCaml.
 Extraction "oracle.ml"
   sign_code commutes_code multiply_code adjoint_code conj_code weight_code
   dense M phase smul anti_l is_identity
-  closure_strs closure_card enc dec.
+  closure_strs closure_card enc dec
+  lie_inv gen_components_strs
+  algprops algprops_old algebra_terms dla_dim dla_dim_old name_dim2.
